@@ -407,6 +407,33 @@ impl TCheck for C13 {
         let image = build_image(&hooks, logical.clone(), &dir, &create_knobs, simcore::prng::hash_label(seed, "c13-img", work));
         let pack_path = dir.join("img.c1.jbkc");
         let pack_bytes = Arc::new(std::fs::read(&pack_path).unwrap_or_else(|e| simcore::harness_error(&format!("C13: {e}"))));
+        // A predecessor (file-backed uncompressed packs, every other work): before the pack is
+        // opened the same thread reads, through the same calls, another edition of it - the same
+        // layout, every stored content byte inverted (raw content bytes are covered by the pack's
+        // global hash only, so it opens) - and closes it. What the thread (or the process)
+        // remembers of a source that is gone must not answer for the next one.
+        let sibling_path = dir.join("sibling.jbkc");
+        let mut predecessor = false;
+        if backing == 1 && comp == Comp::None && !replaced && work % 2 == 0 {
+            let mut sib = pack_bytes.as_ref().clone();
+            let mut all_found = true;
+            for cm in &image.model.contents {
+                if cm.bytes.len() < 8 {
+                    continue;
+                }
+                match pack_bytes.windows(cm.bytes.len()).position(|w| w == &cm.bytes[..]) {
+                    Some(at) => {
+                        for b in &mut sib[at..at + cm.bytes.len()] {
+                            *b = !*b;
+                        }
+                    }
+                    None => all_found = false,
+                }
+            }
+            if all_found && std::fs::write(&sibling_path, &sib).is_ok() {
+                predecessor = true;
+            }
+        }
         let chunk = if huge { 65536 } else if big { 4096 } else { *rng.pick(&[1u64, 7, 64]) };
         let knobs = vec![
             ("decode_chunk", chunk),
@@ -432,7 +459,7 @@ impl TCheck for C13 {
                     .collect()
             })
             .collect();
-        let desc = json!({"name_given_to_another_file_after_open": replaced, "regions_outlive_the_pack": outlive, "several_MiB_content": huge, "image": gen::describe(&logical), "backing": (["memory", "file", "mmap"][backing as usize]),
+        let desc = json!({"another_edition_read_and_closed_first_by_the_same_thread": predecessor, "name_given_to_another_file_after_open": replaced, "regions_outlive_the_pack": outlive, "several_MiB_content": huge, "image": gen::describe(&logical), "backing": (["memory", "file", "mmap"][backing as usize]),
                           "readers": readers, "programs": programs, "decode_chunk": chunk});
         let mut programs = programs;
         if huge || (big && replaced) {
@@ -449,6 +476,32 @@ impl TCheck for C13 {
                     let tmp = pack_path.with_extension("orig");
                     if let Err(e) = std::fs::write(&tmp, pack_bytes.as_ref()).and_then(|_| std::fs::rename(&tmp, &pack_path)) {
                         simcore::harness_error(&format!("C13: cannot restore the pack file: {e}"));
+                    }
+                }
+                if predecessor {
+                    match jubako::FileSource::open(&sibling_path).map(jubako::Reader::from).map_err(|e| e.to_string()).and_then(|r| jubako::reader::ContentPack::new(r).map_err(|e| simcore::dump::err_class(&e))) {
+                        Ok(sib) => {
+                            for cm in model.contents.iter() {
+                                if cm.bytes.len() < 8 {
+                                    continue;
+                                }
+                                match sib.get_content(jubako::ContentIdx::from(cm.content_id)) {
+                                    Ok(Some(region)) => {
+                                        let inverted: Vec<u8> = cm.bytes.iter().map(|b| !b).collect();
+                                        match region.get_slice(jubako::Offset::zero(), cm.bytes.len()) {
+                                            Ok(s) if s[..] == inverted[..] => {}
+                                            Ok(_) => rep.complaints.push(format!("the other edition: content {} does not read what that file holds", cm.content_id)),
+                                            Err(e) => rep.complaints.push(format!("the other edition: slice failed: {}", simcore::dump::err_class(&e))),
+                                        }
+                                        let mut sink = vec![];
+                                        let _ = std::io::Read::read_to_end(&mut region.stream(), &mut sink);
+                                    }
+                                    other => rep.complaints.push(format!("the other edition: get_content answered {:?}", other.map(|o| o.is_some()).map_err(|e| simcore::dump::err_class(&e)))),
+                                }
+                            }
+                            rep.notes.insert("another_edition_read_and_closed_first".into(), 1);
+                        }
+                        Err(e) => rep.complaints.push(format!("the other edition does not open: {e}")),
                     }
                 }
                 let reader: jubako::Reader = if backing == 0 {
